@@ -91,9 +91,9 @@ CHECKS = {
     note="Trusted: rustc MIR, fact dumper, explorer. The overflow predicate itself (max_value(len) < child.pos - parent.pos) is taken as the definition of 'fits'.",
  ),
  "C06": dict(
-    technique="dominating-guard analysis (loop aware), ADT field-type query, sort-key closure inspection, def-use shape of the directory-record arguments, must-execute-per-iteration (back-edge dominance) and must-pass-through path rules in build()",
+    technique="dominating-guard analysis (loop aware), ADT field-type query, sort-key closure inspection, def-use shape of the directory-record arguments, must-execute-per-iteration (back-edge dominance) and must-pass-through path rules in build(), interval-analysis census of panic-capable sites and loop-pacing census over the container writer",
     design_ref="DESIGN.md §4 C06",
-    text="Decides: copy_missing_tables inserts only under the not-present edge of tables.contains_key(tag) for the same tag (a "
+    text="Decides: no new panic-capable indexing / arithmetic site that the interval analysis cannot prove and no new unpaced loop in font_builder.rs / util.rs (build() has no error channel; 15 existing unproven sites are tolerated as untriaged, not claimed); copy_missing_tables inserts only under the not-present edge of tables.contains_key(tag) for the same tag (a "
          "supplied table is never overridden, whatever its length); FontBuilder.tables is BTreeMap<Tag,_>, directory records are "
          "sorted by record.tag before TableDirectory::from_table_records and nothing is pushed afterwards; ordered_tags' sort "
          "key ends in the tag itself (total order => result independent of insertion order); every constant-range slice of table "
